@@ -141,7 +141,7 @@ AllSyms == {[k |-> kk, v |-> vv] : kk \in {"c", "s", "d"}, vv \in 0..255}
 Txt(t) == [i \in 1..Len(t) |-> C(t[i])]
 ProbeBase(c) ==
   CASE c = "b16" -> {Txt(<<53, 70>>), Txt(<<53>>)}                              \* 5F  5
-    [] c = "b32" -> {Txt(<<48, 49, 50, 51, 52, 53, 54, 86>>), Txt(<<48, 86>>)}  \* 0123456V  0V
+    [] c = "b32" -> {Txt(<<48, 49, 50, 51, 52, 53, 54, 86, 48, 86>>), Txt(<<48, 86>>)}  \* 0123456V0V  0V
     [] c = "b64" -> {Txt(<<81, 85, 74, 68>>), Txt(<<81, 85, 73, 61>>), Txt(<<81, 81, 61, 61>>)}  \* QUJD QUI= QQ==
 ProbeTexts(c) == UNION {{[t EXCEPT ![p] = s] : p \in 1..Len(t), s \in AllSyms} : t \in ProbeBase(c)}
 Once == codec = "b16" /\ esyms = <<>>          \* evaluated in one initial state
